@@ -85,7 +85,7 @@ func init() {
 
 func init() {
 	reg(&propCfg{ID: "C12", QuickRuns: 2000, QuickSecs: 40, ThoroughRuns: 200000, ThoroughSecs: 780, Chunk: 50,
-		RuleNote:   "C12 strata by run index: 'grid' enumerates server msize {default,24,25,64,300,8192,1 MiB+24} x client msize {0,23,24,25,server-1,server,server+1,2^32-1,200,4096} x server dialect x version string {9P2000,9P2000.u,9P2000.L,'',unknown} (700 cells, each revisited under new schedules) and then measures every reply kind on the wire with the script producing Rstat / Rerror at msize-1, msize, msize+1, 2*msize, reads up to msize-24 and a 16-element walk; 'bad-frame' announces sizes 0..6, msize+1, 8*msize+1, 2^31, 2^32-1 with and without a partial body; 'client' runs Connect against scripted Rversion (msize <,=,> the client's, five version strings); 'renegotiate' sends a second Tversion with a smaller msize after the reply-buffer pool was filled, optionally with requests parked.",
+		RuleNote:   "C12 strata by run index: 'grid' enumerates server msize {default,24,25,64,300,8192,1 MiB+24} x client msize {0,23,24,25,server-1,server,server+1,2^32-1,200,4096} x server dialect x version string {9P2000,9P2000.u,9P2000.L,'',unknown} (700 cells, each revisited under new schedules) and then measures every reply kind on the wire with the script producing Rstat / Rerror at msize-1, msize, msize+1, 2*msize, reads up to msize-24 and a 16-element walk; 'bad-frame' announces sizes 0..6, msize+1, 8*msize+1, 2^31, 2^32-1 with and without a partial body; 'client' runs Connect against scripted Rversion (msize <,=,> the client's, five version strings); 'renegotiate' sends a second Tversion with a smaller msize after the reply-buffer pool was filled, optionally with requests parked. In 'grid' cells whose Tversion is refused (msize < 24) a proper Tversion follows on the same connection and must be negotiated and served as on a fresh one.",
 		Real:       append(append([]string{}, srvReal...), "go9p client Connect/Attach (client stratum)"), Stub: srvStub,
 		ProbeNames: []string{"msize-too-small-refused", "rstat-sent", "reply-refused-for-size", "rerror-full-text-sent", "rerror-shortened-or-replaced", "reply-buffer-older-than-negotiation", "renegotiation-with-requests-outstanding"}})
 }
@@ -95,7 +95,7 @@ var clntStub = []string{"9P server: scripted peer with an independent codec, ans
 
 func init() {
 	reg(&propCfg{ID: "C09", QuickRuns: 2000, QuickSecs: 40, ThoroughRuns: 200000, ThoroughSecs: 780, Chunk: 25, WatchdogSecs: 900,
-		RuleNote:   "C09: stratum 'concurrent': 1..16 (thorough ..64) caller goroutines with 2..8 calls each (Read, Write, Stat, Walk, Open, Clunk, reads answered with Rerror text+number, reads answered with a reply of the wrong type, pipelined Tag-interface reads sharing a tag); the scripted server withholds replies with drawn probability and releases them one per phase in scheduler-chosen order, replies segmented by policy; reply content is a function of the request. Stratum 'long-run' (every 50th run): 10 000 (thorough 70 000 > 65 535) consecutive calls over one connection.",
+		RuleNote:   "C09: stratum 'concurrent': 1..16 (thorough ..64) caller goroutines with 2..8 calls each (Read, Write, Stat, Walk, Open, Clunk, reads answered with Rerror text+number, reads answered with a reply of the wrong type, pipelined Tag-interface reads sharing a tag); the scripted server withholds replies with drawn probability and releases them one per phase in scheduler-chosen order, replies segmented by policy; reply content is a function of the request. Stratum 'long-run' (every 50th run): 10 000 (thorough 70 000 > 65 535) consecutive calls over one connection. Stratum 'long-run-wide' (quick: one run, thorough: every 800th): 100 000 calls, 64 at a time in flight through ReqAlloc/Rpcnb/ReqFree, so that 48 of every 64 request slots overflow the client's 16-slot cache and their tags pass through the tag pool (more than 65 535 pool round trips).",
 		Real:       clntReal, Stub: clntStub,
 		ProbeNames: []string{"8+-calls-outstanding", "32+-calls-outstanding", "replies-delivered-out-of-order", "tag-value-reused-after-free", "5+-replies-withheld"}})
 }
